@@ -291,6 +291,7 @@ def run(case: dict, ctx) -> dict:
     extra_pts = [c_ * cs for c_, s_ in enumerate(meta["states"]) if s_ == "A"][:12] if case.get("big") else ()
     reqs, exhaustive = gen_requests(rng, meta["size"], [cs], n_random=40 if ctx.tier == "quick" else 150, extra=extra_pts)
     res["cnt"]["images_of_2TiB_or_more"] = int(meta["size"] >= 1 << 41)
+    fault_retry_reads(st, model, reqs, rng, res, MECH, n=3)  # cold caches
     continuation_reads(st, model, reqs, rng, res, MECH)
     fault_retry_reads(st, model, reqs, rng, res, MECH)
     compare_reads(st, model, reqs, res, MECH)
